@@ -455,9 +455,10 @@ example : claims { chans := [⟨1, none, [⟨.prev 0 5, true⟩, ⟨.prev 0 6, f
                    queue := [], pays := fun _ => none } = [⟨.prev 0 5, 1, true⟩] := by decide
 
 /-- `no HTLC is both claimed upstream and failed upstream`: a fail-back that takes effect is never for an HTLC whose claim was
-    replayed.  (The raw lists CAN overlap — an HTLC in the stale manager's holding cell that the newer monitor committed and saw
-    claimed, second example — the read queues the fail, applies the claim, and FundedChannel::fail_htlc then refuses: pinned
-    textually by gen_reconstruct.py, `claimWinsOverQueuedFail`.) -/
+    replayed.  (The raw lists CAN overlap in the model — a source one stale channel knows and its monitor forgot while another monitor
+    holds its preimage, last example below; before the repair of KF-C10-6 also an HTLC of the stale manager's holding cell that the
+    newer monitor committed and saw claimed — the read queues the fail, applies the claim, and FundedChannel::fail_htlc then refuses:
+    pinned textually by gen_reconstruct.py, `claimWinsOverQueuedFail`.) -/
 theorem never_claimed_and_failed (n : NodeW) (f : Src × FailReason) (hf : f ∈ effectiveFails n) :
     ∀ cl ∈ claims n, cl.src ≠ f.1 := by
   unfold effectiveFails at hf
@@ -467,48 +468,96 @@ theorem never_claimed_and_failed (n : NodeW) (f : Src × FailReason) (hf : f ∈
   intro cl hcl he
   exact h2 cl hcl (by simp [he])
 
-/-- a channel closed as OutdatedChannelManager fails back exactly: what its force-shutdown dropped (holding-cell adds, LocalAnnounced
-    HTLCs of a blocked commitment), and the sources of its pending HTLCs that the newer monitor does NOT list; an HTLC the monitor
-    lists is never failed as "missing" -/
+/-- a channel closed as OutdatedChannelManager fails back only sources of its own (stale) channel — what its force-shutdown dropped
+    (holding-cell adds, LocalAnnounced HTLCs of a blocked commitment) or its pending HTLCs — and ONLY those the newer monitor does NOT
+    list; an HTLC the monitor lists is never failed by the stale branch, whichever of the two lists it came from.
+    (Restated after the repair of KF-C10-6: before it the `dropped` disjunct carried no monitor condition.) -/
 theorem stale_fail_only_if_dropped_or_missing (c : ChanW) (s : Src) (r : FailReason) (h : (s, r) ∈ staleFailsOf c) :
-    c.stale = true ∧ r = .channelClosed ∧ (s ∈ c.mgrDropped ∨ (s ∈ c.mgrPending ∧ ∀ m ∈ c.monHtlcs, m.src ≠ s)) :=
-  (mem_staleFailsOf c s r).mp h
+    c.stale = true ∧ r = .channelClosed ∧ (s ∈ c.mgrDropped ∨ s ∈ c.mgrPending) ∧ ∀ m ∈ c.monHtlcs, m.src ≠ s := by
+  obtain ⟨h1, h2, h3⟩ := (mem_staleFailsOf c s r).mp h
+  refine ⟨h1, h2, ?_⟩
+  rcases h3 with ⟨hd, hf⟩ | ⟨hp, hm⟩
+  · exact ⟨Or.inl hd, (monLists_eq_false c s).mp (by simpa [droppedHtlcFailed] using hf)⟩
+  · exact ⟨Or.inr hp, hm⟩
 
-theorem stale_missing_htlc_failed (c : ChanW) (s : Src) (hst : c.stale = true) (hp : s ∈ c.mgrPending)
-    (hm : ∀ m ∈ c.monHtlcs, m.src ≠ s) : (s, .channelClosed) ∈ staleFailsOf c :=
-  (mem_staleFailsOf c s _).mpr ⟨hst, rfl, Or.inr ⟨hp, hm⟩⟩
+/-- ... and every such source IS failed: an HTLC the stale manager copy knows (pending or dropped by force_shutdown) and the newer
+    monitor has forgotten is failed back so that it is not lost -/
+theorem stale_missing_htlc_failed (c : ChanW) (s : Src) (hst : c.stale = true) (hp : s ∈ c.mgrPending ∨ s ∈ c.mgrDropped)
+    (hm : ∀ m ∈ c.monHtlcs, m.src ≠ s) : (s, .channelClosed) ∈ staleFailsOf c := by
+  refine (mem_staleFailsOf c s _).mpr ⟨hst, rfl, ?_⟩
+  rcases hp with hp | hd
+  · exact Or.inr ⟨hp, hm⟩
+  · exact Or.inl ⟨hd, by simp [droppedHtlcFailed, (monLists_eq_false c s).mpr hm]⟩
 
 /-- stale channel 1: HTLC (0,5) is pending in the manager copy and gone from the monitor: failed; (0,6) is listed by the monitor: kept -/
 example : fails { chans := [⟨1, some { mgr := ⟨3, 3, [], ⟨9, 9, 9⟩⟩, mon := ⟨5, ⟨9, 9, 9⟩⟩ }, [⟨.prev 0 6, false⟩], [], false, [.prev 0 5, .prev 0 6], []⟩],
                   queue := [], pays := fun _ => none } = [(.prev 0 5, .channelClosed)] := by decide
-/-- raw overlap: (0,7) sat in the stale manager's holding cell, the newer monitor lists it WITH its preimage: claim wins -/
+/-- the same for what force_shutdown dropped: (0,5) sat in the holding cell and the monitor never saw it: failed; (0,6) sat in the holding
+    cell when the manager was written and was committed afterwards (the monitor lists it): NOT failed -/
+example : fails { chans := [⟨1, some { mgr := ⟨3, 3, [], ⟨9, 9, 9⟩⟩, mon := ⟨5, ⟨9, 9, 9⟩⟩ }, [⟨.prev 0 6, false⟩], [], false, [], [.prev 0 5, .prev 0 6]⟩],
+                  queue := [], pays := fun _ => none } = [(.prev 0 5, .channelClosed)] := by decide
+
+/-- KF-C10-6 REPAIRED (`dropped_htlc_failed_only_if_monitor_forgot_it`), every node world: an outbound HTLC that `force_shutdown` drops
+    from a channel closed as OutdatedChannelManager (holding-cell add, LocalAnnounced HTLC of a blocked commitment) is failed back by
+    that channel's stale branch IFF the channel's newer monitor does not list it — the same `found`-style test the pending HTLCs get.
+    Consequently (second part) when the monitor forgot it the fail-back is among the read's decisions and takes effect upstream unless a
+    claim of the same source is replayed; (third part) when the monitor lists it — committed to the counterparty after the manager copy
+    was written, still claimable on chain — NO ChannelClosed fail-back of the whole read names it unless ANOTHER stale channel of the
+    node, whose own monitor does not list it, knows the same source. -/
+theorem dropped_htlc_failed_only_if_monitor_forgot_it (n : NodeW) (c : ChanW) (hc : c ∈ n.chans) (hst : c.stale = true)
+    (s : Src) (hd : s ∈ c.mgrDropped) :
+    ((s, .channelClosed) ∈ staleFailsOf c ↔ ∀ m ∈ c.monHtlcs, m.src ≠ s) ∧
+    ((∀ m ∈ c.monHtlcs, m.src ≠ s) →
+      (s, .channelClosed) ∈ fails n ∧ ((∀ cl ∈ claims n, cl.src ≠ s) → (s, .channelClosed) ∈ effectiveFails n)) ∧
+    ((∃ m ∈ c.monHtlcs, m.src = s) → (s, .channelClosed) ∈ fails n →
+      ∃ c' ∈ n.chans, c' ≠ c ∧ c'.stale = true ∧ (s ∈ c'.mgrDropped ∨ s ∈ c'.mgrPending) ∧ ∀ m ∈ c'.monHtlcs, m.src ≠ s) := by
+  refine ⟨⟨fun h => (stale_fail_only_if_dropped_or_missing c s _ h).2.2.2,
+           fun hm => stale_missing_htlc_failed c s hst (Or.inr hd) hm⟩, fun hm => ?_, fun hl hf => ?_⟩
+  · have hf : (s, FailReason.channelClosed) ∈ fails n :=
+      (mem_fails_channelClosed n s).mpr ⟨c, hc, stale_missing_htlc_failed c s hst (Or.inr hd) hm⟩
+    refine ⟨hf, fun hn => ?_⟩
+    unfold effectiveFails
+    refine List.mem_filter.mpr ⟨hf, ?_⟩
+    simp only [Bool.not_eq_true', Bool.and_eq_false_iff, List.any_eq_false, beq_iff_eq]
+    exact Or.inr (fun cl hcl => by simpa using hn cl hcl)
+  · obtain ⟨c', hc', hf'⟩ := (mem_fails_channelClosed n s).mp hf
+    obtain ⟨h1, _, h3, h4⟩ := stale_fail_only_if_dropped_or_missing c' s _ hf'
+    refine ⟨c', hc', ?_, h1, h3, h4⟩
+    rintro rfl
+    obtain ⟨m, hm, he⟩ := hl
+    exact h4 m hm he
+
+/-- the model-side counterpart of the harness' world oracle: EVERY ChannelClosed fail decision of the read (all node worlds) is for a
+    source some stale channel of the manager copy knows while that channel's own newer monitor does not list it.  In particular, with
+    sources unique to one channel, an HTLC its channel's monitor still lists as committed is never failed back at start-up. -/
+theorem channel_closed_fail_names_a_forgetting_monitor (n : NodeW) (s : Src) (h : (s, .channelClosed) ∈ fails n) :
+    ∃ c ∈ n.chans, c.stale = true ∧ (s ∈ c.mgrDropped ∨ s ∈ c.mgrPending) ∧ ∀ m ∈ c.monHtlcs, m.src ≠ s := by
+  obtain ⟨c, hc, hf⟩ := (mem_fails_channelClosed n s).mp h
+  obtain ⟨h1, _, h3, h4⟩ := stale_fail_only_if_dropped_or_missing c s _ hf
+  exact ⟨c, hc, h1, h3, h4⟩
+
+/-- (0,7) sat in the stale manager's holding cell, the newer monitor lists it WITH its preimage: it is claimed upstream and no longer
+    failed at all (before the repair: raw fail + claim, the claim won) -/
 example : (let n : NodeW := { chans := [⟨1, some { mgr := ⟨3, 3, [], ⟨9, 9, 9⟩⟩, mon := ⟨5, ⟨9, 9, 9⟩⟩ }, [⟨.prev 0 7, true⟩], [], false, [], [.prev 0 7]⟩,
+                                       ⟨0, none, [], [], false, [], []⟩], queue := [], pays := fun _ => none }
+    (fails n, (claims n).map (·.src), effectiveFails n)) = ([], [.prev 0 7], []) := by decide
+/-- raw overlap (model level): stale channel 1 knows (0,7) and its monitor forgot it, channel 3's monitor holds the preimage: claim wins -/
+example : (let n : NodeW := { chans := [⟨1, some { mgr := ⟨3, 3, [], ⟨9, 9, 9⟩⟩, mon := ⟨5, ⟨9, 9, 9⟩⟩ }, [], [], false, [.prev 0 7], []⟩,
+                                       ⟨3, none, [⟨.prev 0 7, true⟩], [], false, [], []⟩,
                                        ⟨0, none, [], [], false, [], []⟩], queue := [], pays := fun _ => none }
     (fails n, (claims n).map (·.src), effectiveFails n)) = ([(.prev 0 7, .channelClosed)], [.prev 0 7], []) := by decide
 
-/-- KF-C10-6 (known finding), every node world: whatever `force_shutdown` drops from a channel closed as OutdatedChannelManager
-    (holding-cell adds, LocalAnnounced HTLCs of a blocked commitment) is failed back — the `dropped_outbound_htlcs` disjunct has NO
-    monitor check, so this holds even when the channel's newer monitor lists the very same HTLC as committed and still pending;
-    unless a claim of the same source is replayed the fail-back takes effect upstream. -/
-theorem kf_c10_6_dropped_htlc_failed_whatever_the_monitor_lists (n : NodeW) (c : ChanW) (hc : c ∈ n.chans) (hst : c.stale = true)
-    (s : Src) (hd : s ∈ c.mgrDropped) :
-    (s, .channelClosed) ∈ fails n ∧ ((∀ cl ∈ claims n, cl.src ≠ s) → (s, .channelClosed) ∈ effectiveFails n) := by
-  have hf : (s, FailReason.channelClosed) ∈ fails n := by
-    unfold fails
-    exact List.mem_append.mpr (Or.inl (List.mem_flatMap.mpr ⟨c, hc, (mem_staleFailsOf c s _).mpr ⟨hst, rfl, Or.inl hd⟩⟩))
-  refine ⟨hf, fun hn => ?_⟩
-  unfold effectiveFails
-  refine List.mem_filter.mpr ⟨hf, ?_⟩
-  simp only [Bool.not_eq_true', Bool.and_eq_false_iff, List.any_eq_false, beq_iff_eq]
-  exact Or.inr (fun cl hcl => by simpa using hn cl hcl)
-
-/-- KF-C10-6, the real world (scenario 1, seed 7862637804313477842, manager of q=34, channel 2's monitor of point 37 / 46): the forward
+/-- the world that WAS KF-C10-6 (scenario 1, seed 7862637804313477842, manager of q=34, channel 2's monitor of point 37 / 46): the forward
     of inbound HTLC (1,0) sat in channel 2's holding cell when the manager was written; the newer monitor lists it as committed and
-    pending (no preimage); the read fails it upstream while it is live downstream (the harness' end-to-end probe then lets the
-    downstream peer claim it on chain: the forwarder loses the amount). -/
+    pending (no preimage).  The read no longer fails it upstream: it stays committed on the inbound channel and is resolved through the
+    monitor (the harness' end-to-end probe lets the downstream peer claim it on chain: the forwarder claims upstream). -/
 example : (let n : NodeW := { chans := [⟨2, some { mgr := ⟨4, 4, [], ⟨9, 9, 9⟩⟩, mon := ⟨7, ⟨9, 9, 9⟩⟩ }, [⟨.prev 1 0, false⟩], [], false, [], [.prev 1 0]⟩,
                                        ⟨1, some { mgr := ⟨2, 2, [], ⟨9, 9, 9⟩⟩, mon := ⟨2, ⟨9, 9, 9⟩⟩ }, [], [], false, [], []⟩], queue := [], pays := fun _ => none }
-    (effectiveFails n, (n.chans.head!).monHtlcs)) = ([(.prev 1 0, .channelClosed)], [⟨.prev 1 0, false⟩]) := by decide
+    (fails n, effectiveFails n, (n.chans.head!).monHtlcs)) = ([], [], [⟨.prev 1 0, false⟩]) := by decide
+/-- the same manager copy against a monitor that never received the HTLC (crash before the holding cell was freed): failed back, as it must -/
+example : (let n : NodeW := { chans := [⟨2, some { mgr := ⟨4, 4, [], ⟨9, 9, 9⟩⟩, mon := ⟨5, ⟨9, 9, 9⟩⟩ }, [], [], false, [], [.prev 1 0]⟩,
+                                       ⟨1, some { mgr := ⟨2, 2, [], ⟨9, 9, 9⟩⟩, mon := ⟨2, ⟨9, 9, 9⟩⟩ }, [], [], false, [], []⟩], queue := [], pays := fun _ => none }
+    effectiveFails n) = [(.prev 1 0, .channelClosed)] := by decide
 
 /-- `reconcile soundness` at node level: a queued forward disappears in the read only if the monitor of a channel that is closed at
     load time lists that very inbound HTLC as forwarded -/
